@@ -8,6 +8,7 @@ same bytes for the same values."""
 import random
 
 from vf import campaign
+from vf.gen import invalidate
 from vf.gen.valuegen import ValueGen
 from vf.ref.interp import Invalid, Unsupported
 from vf.ref.writer import RefWriter
@@ -183,6 +184,33 @@ def one(rec, t, ti, name, obj, mode):
     rec.count("serializations-compared")
     if exc is None and w.string_sanitization_mode != mode:
         rec.count("mode-leaks-seen")
+    if not mode:
+        # one long-lived writer per tree takes every object in turn, accepted or refused (a connection's send
+        # buffer): what an earlier object did to it must not change the bytes of a later one
+        sh = getattr(t, "shared_writer", None)
+        if sh is None or len(sh) > 4000:
+            sh = t.shared_writer = t.EoWriter()
+        if pred is None and rec.evals % 3 == 0:
+            # a refused object first: one declaration-violating change somewhere inside this very value
+            try:
+                ss = invalidate.sites(it, obj)
+                site = ss[rec.evals % len(ss)] if ss else None
+                bad = invalidate.apply(it, obj, site, None) if site else None
+                if bad is not None:
+                    C.serialize(sh, br.build(bad))
+            except Exception:
+                rec.count("refused-objects-before-a-reused-writer-serialization")
+        n0 = len(sh)
+        try:
+            C.serialize(sh, real)
+            got2 = bytes(sh.to_bytearray())[n0:]
+        except Exception:
+            got2 = None
+        rec.count("serializations-into-a-reused-writer")
+        if pred is None and exc is None and got2 != want:
+            case["xml"] = t.files
+            rec.violation("bytes-differ-on-reused-writer", "tree %d %s: into a writer that earlier objects were serialized into (some refused): %s, reference %s for %r" % (
+                ti, name, got2.hex() if got2 is not None else None, want.hex(), obj), case)
     if pred is not None:
         # reference says invalid: real must raise SerializationError / ValueError
         rec.count("predicted-invalid")
